@@ -79,6 +79,8 @@ def check_net(net, spec):
         fp = net.res_pipe.at[p, "mdot_from_kg_per_s" if side == "from" else "mdot_to_kg_per_s"]
         if np.isnan(fv) and (np.isnan(fp) or abs(fp) <= TOL):
             continue          # closed / unsupplied valve: the pipe end carries nothing
+        if np.isnan(fp) and abs(fv) <= TOL:
+            continue          # pipe out of service / unsupplied: the open valve ends in a dead node and carries nothing
         if np.isnan(fv) != np.isnan(fp) or abs(fv - fp) > TOL * (1 + abs(fv)):
             fails.append({"fingerprint": "C01:pipe-valve-flow", "clause": "pipe valve flow = pipe end flow",
                           "detail": {"valve": int(vi), "pipe": int(p), "valve_flow": fv, "pipe_flow": fp}})
